@@ -26,7 +26,8 @@ struct VfQuantity {
   unsigned long (*hash)(const VfLD* a);
   void (*containers)(const VfLD* vals, int count, VfLD* stored, int* out3);  // out3: set size, unordered_set size, number of members found again in both
   // C16: this row's numeric type -> to_nt ; via 0 converting constructor, 1 converting assignment
-  void (*cast)(int to_nt, int via, const VfLD* in, VfLD* stored_src, VfLD* out);
+  // via: 0 converting constructor, 1 converting assignment into a target that holds an unrelated value, 2 converting assignment into a target that holds `prior`
+  void (*cast)(int to_nt, int via, const VfLD* in, const VfLD* prior, VfLD* stored_src, VfLD* out);
   // C02 / C15: units (null for dimensionless rows)
   void (*in_unit)(const VfLD* in, int unit, VfLD* stored);          // Q(v, unit)
   void (*value_unit)(const VfLD* stored, int unit, VfLD* out);      // q.Value(unit)
